@@ -111,6 +111,8 @@ def run_case(ctx, g, rng):
         small_world_case(ctx, g)
     if g % 25 == 24:
         return large_case(ctx, g, rng)
+    if g % 25 == 12:
+        return many_synonyms_case(ctx, g, rng)
     recs = gen.records(rng, ":", 1, 5, allow_delim=True, patterns=True)
     if g % 7 == 3:
         # the collection is (the Record objects of) the PRODUCT of another operation - a converter grown through merges or
@@ -295,6 +297,46 @@ def run_case(ctx, g, rng):
     if g % 173 == 0:
         o = call(api.Converter, [gen.mk_record(api, r) for r in recs])
         probe.sample({"records": [spec.rec_dict(r) for r in recs], "injected": labels, "outcome": o if o[0] == "raise" else "constructed"})
+
+
+def many_synonyms_case(ctx, g, rng):
+    """Records with dozens or hundreds of synonyms (a registry record listing every provider's URI prefix, every spelling
+    of its prefix), in the order the caller wrote them; another record claims one of them - anywhere in the list - or
+    not (seed C04-W: above a number of synonyms the comparison bisects a list nobody sorted)."""
+    api, S = ctx.api, probe.S
+    side = rng.choice(["curie", "uri"])
+    k = rng.choice([31, 32, 33, 40, 64, 65, 120, 300])
+    names = [f"syn{i}" for i in range(k)] if side == "curie" else [f"http://prov.org/{i}/" for i in range(k)]
+    order = rng.choice(["as-numbered", "shuffled", "reversed", "sorted"])
+    if order == "shuffled":
+        rng.shuffle(names)
+    elif order == "reversed":
+        names.reverse()
+    elif order == "sorted":
+        names.sort()
+    longrec = spec.Rec("mm", "http://mm.org/", tuple(names), (), None) if side == "curie" else spec.Rec("mm", "http://mm.org/", (), tuple(names), None)
+    recs = [longrec] + [spec.Rec(f"aa{i}" if rng.random() < 0.5 else f"zz{i}", f"http://other.org/{i}/", (), (), None) for i in range(rng.randint(1, 3))]
+    kind = "valid"
+    if rng.random() < 0.7:
+        victim = rng.choice(names)
+        j = rng.randrange(1, len(recs))
+        b = recs[j]
+        level = rng.choice(["c", "s", "s"])
+        if side == "curie":
+            recs[j] = b._replace(prefix=victim) if level == "c" else b._replace(psyn=(victim,))
+        else:
+            recs[j] = b._replace(uri_prefix=victim) if level == "c" else b._replace(usyn=(victim,))
+        kind = f"{side}-s{level}"
+        if rng.random() < 0.3:
+            # both records are long: the claimant lists the name among dozens of its own
+            own = [f"own{i}" for i in range(40)] if side == "curie" else [f"http://own.org/{i}/" for i in range(40)]
+            own.insert(rng.randrange(len(own)), victim)
+            recs[j] = b._replace(psyn=tuple(own)) if side == "curie" else b._replace(usyn=tuple(own))
+    rng.shuffle(recs)
+    call(api.Converter, [gen.mk_record(api, r) for r in recs])
+    call(api.Converter.from_extended_prefix_map, [spec.rec_dict(r) for r in recs])
+    S.counters[f"wl:many-synonyms:{side}:k{k}:{order}:{kind}"] += 1
+    probe.note_key(f"many-synonyms:{side}:{kind}:{order}", True)
 
 
 def large_case(ctx, g, rng):
